@@ -320,6 +320,14 @@ func c09Sched(c *vrep.Ctx) {
 			// a document with fewer tokens than the classifier's q: indexed with a q of its own
 			cl.AddContent("Supplement", "D", "preface.txt", []byte("pp"))
 		}
+		switch c.Param("trace", "off") {
+		case "wildcard":
+			// a trace configuration with wildcard license patterns and no phase: nothing is emitted, but
+			// every trace predicate is evaluated against it on every call
+			cl.SetTraceConfiguration(&TraceConfiguration{TraceLicenses: "License/A*,Header/*", Tracer: func(string, ...interface{}) {}})
+		case "all":
+			cl.SetTraceConfiguration(&TraceConfiguration{TraceLicenses: "*", TracePhases: "*", Tracer: func(string, ...interface{}) {}})
+		}
 		return cl
 	}
 	inputs := [][]byte{
@@ -350,6 +358,7 @@ func c09Sched(c *vrep.Ctx) {
 	c.Bound("inputs_per_thread", fmt.Sprint(pick))
 	c.Assume("go-diff, regexp and the runtime are atomic steps for the scheduler (yield points surround the calls into go-diff); the memory-model half is decided by c09_frozen")
 	c.Bound("threads", nthreads)
+	c.Bound("trace_configuration", c.Param("trace", "off"))
 	c.Bound(c.Param("policy", "delay")+"_bound", budget)
 	h0 := vStateHash(mk(), false)
 	yields := 0
